@@ -167,8 +167,11 @@ class GuardAnalysis:
   def __init__(self, idx: Index, guard_fn: str, find_sinks,
                descend: Callable[[str], bool] = lambda name: True,
                max_depth: int = 8, require_raise: Optional[str] = None,
-               recv_alias: Optional[Dict[str, Tuple[str, ...]]] = None):
+               recv_alias: Optional[Dict[str, Tuple[str, ...]]] = None,
+               test_matcher=None, bypass=None):
     self.idx = idx
+    self.test_matcher = test_matcher   # (cfg node, recvs) -> bool
+    self.bypass = bypass               # (cfg node, recvs) -> label | None
     self.guard_fn = guard_fn
     self.find_sinks = find_sinks
     self.descend = descend
@@ -186,12 +189,15 @@ class GuardAnalysis:
       if n.kind != 'test':
         continue
       hit = False
-      for c in A.calls_in(n.ast):
-        d = A.call_name(c)
-        if d and d.split('.')[-1] == self.guard_fn and c.args:
-          r = A.dotted(c.args[0])
-          if r in recvs:
-            hit = True
+      if self.test_matcher is not None:
+        hit = self.test_matcher(n, recvs)
+      else:
+        for c in A.calls_in(n.ast):
+          d = A.call_name(c)
+          if d and d.split('.')[-1] == self.guard_fn and c.args:
+            r = A.dotted(c.args[0])
+            if r in recvs:
+              hit = True
       if not hit:
         continue
       for lab in ('true', 'false'):
@@ -225,6 +231,14 @@ class GuardAnalysis:
       for m, l in n.succ:
         if l == other:
           blocked.add((n.id, m.id, l))
+    if self.bypass is not None:
+      for n in g.nodes:
+        if n.kind == 'test':
+          lab = self.bypass(n, recvs)
+          if lab:
+            for m, l in n.succ:
+              if l == lab:
+                blocked.add((n.id, m.id, l))
     seen, parent = g.reach(g.entry, blocked_edges=blocked, follow_exc=False)
     for n, _ in gts:
       self.guards_seen.add((func.fq, n.lineno))
